@@ -141,6 +141,12 @@ def c15_1(rep, ix):
                     return False
                 if quoted(inner[0].orelse) and not quoted(inner[0].body):
                     sites.append((n, inner[0], var))
+                elif quoted(inner[0].body) and not quoted(inner[0].orelse) and inner[0].orelse:
+                    # the same decision written the other way round: `if <not a p-name>: quoted else: bare`
+                    neg = ast.If(test=ast.UnaryOp(op=ast.Not(), operand=inner[0].test), body=inner[0].orelse, orelse=inner[0].body)
+                    ast.copy_location(neg, inner[0])
+                    ast.fix_missing_locations(neg)
+                    sites.append((n, neg, var))
     slots = 0
     for outer, test_if, var in sites:
         if "_var" in u(outer) and "array" in u(outer):
@@ -219,7 +225,7 @@ def c15_2(rep, ix):
     # evaluator
     e = ix.func(EVAL)
     en = e.node
-    tests = [n for n in walk_shallow(en) if isinstance(n, ast.If) and isinstance(n.test, ast.Compare) and len(n.test.ops) == 1 and isinstance(n.test.ops[0], ast.In)
+    tests = [n for n in walk_shallow(en) if isinstance(n, ast.If) and isinstance(n.test, ast.Compare) and len(n.test.ops) == 1 and isinstance(n.test.ops[0], (ast.In, ast.NotIn))
              and u(n.test.comparators[0]) == "_PARAMS"]
     if len(tests) != 1:
         # a membership test against something derived from _PARAMS (e.g. their names) is a different predicate
@@ -234,6 +240,17 @@ def c15_2(rep, ix):
     key = resolved_text(en, t.test.left, t)
     rep.check(key == "expr.getText()", R, ix.site(e, t), "the tested key is the variable's own text (a str)", "key `%s`" % key, key="eval key")
     body = t.body
+    negated = isinstance(t.test.ops[0], ast.NotIn)
+    if negated:
+        # guard-clause form: `if name not in _PARAMS: return _VAR[name]` - the registered-name case is what follows the guard
+        from ..py.guards import path_to as _path_to
+        blk = None
+        for (stmts_, i_, field_) in _path_to(en.body, t) or []:
+            if stmts_[i_] is t:
+                blk = stmts_[i_ + 1:]
+        if not (t.body and isinstance(t.body[-1], (ast.Return, ast.Raise)) and not t.orelse and blk is not None):
+            raise Inconclusive("_expression: negated p-array test is not a guard clause")
+        body = blk
     ret = [s for s in body if isinstance(s, ast.Return)]
     okret = len(ret) == 1 and resolved_text(en, ret[0].value, ret[0]) == "expr.getText()"
     rep.check(okret, R, ix.site(e, t), "for a registered name the evaluator returns the name itself", key="eval return")
@@ -241,7 +258,7 @@ def c15_2(rep, ix):
     rep.check(len(chk) == 1 and ret and pos(chk[0]) < pos(ret[0]), R, ix.site(e, t), "before returning the name the stored value is checked to be an array (TypeError otherwise)", key="eval array check")
     # the test sits after the undefined-name check and before the plain value return
     plain = [s for s in walk_shallow(en) if isinstance(s, ast.Return) and resolved_text(en, s.value, s) == "_VAR[expr.getText()]"]
-    rep.check(plain and pos(t) < pos(plain[0]), R, ix.site(e, t), "other variables are returned by value after the p-array test", key="eval order")
+    rep.check(plain and (pos(t) < pos(plain[0])), R, ix.site(e, t), "other variables are returned by value after the p-array test", key="eval order")
 
 
 def c15_3(rep, ix):
